@@ -747,3 +747,108 @@ def timed_rules(ctx: Ctx) -> None:
     oke = len(eng) == 1 and isinstance(eng[0].value, ast.Call) and callee_name(ctx, f, eng[0].value) == "simfile.timing.engine.TimingEngine" \
         and len(eng[0].value.args) == 1 and isinstance(eng[0].value.args[0], ast.Name) and eng[0].value.args[0].id == f.param_names()[1]
     ctx.expect("R-FWD", f, "the engine is built from the caller's timing data", oke, "", "", node=f.node)
+
+
+def columns_rule(ctx: Ctx) -> None:
+    """The reported column count is computed from the stored text (width of its first row)."""
+    p = ctx.p
+    init = p.func(f"{ND}.__init__")
+    sn = init.param_names()[0]
+    cfg = ctx.cfg(init)
+    st = [n for n in body_walk(init.node) if isinstance(n, ast.Assign) and self_attr(n.targets[0], sn) == "_columns"]
+    ok = len(st) == 1 and ast.unparse(st[0].value) in (f"NoteData._get_columns({sn}._notedata)", f"{sn}._get_columns({sn}._notedata)") and cfg.must_pass([cfg_node_of(cfg, init, st[0])]) is None
+    ctx.expect("R-TABLE", init, "the column count is derived from the stored text on every path", ok, "", "", node=init.node)
+    c = p.func(f"{ND}.columns")
+    rr = [r for r in body_walk(c.node) if isinstance(r, ast.Return)]
+    ctx.expect("R-TABLE", c, "columns reports that count", len(rr) == 1 and self_attr(rr[0].value, c.param_names()[0]) == "_columns", "", "", node=c.node)
+    g = p.func(f"{ND}._get_columns")
+    rr = [r for r in body_walk(g.node) if isinstance(r, ast.Return)]
+    okg = len(rr) == 1 and isinstance(rr[0].value, ast.Call) and isinstance(rr[0].value.func, ast.Name) and rr[0].value.func.id == "len"
+    ex = [x for x in calls(g) if callee_name(ctx, g, x).endswith("NoteData._extract_keysound_indices")]
+    ctx.expect("R-TABLE", g, "the width is the length of the first row with keysound brackets removed", okg and len(ex) == 1, "", "", node=g.node)
+
+
+def grouping_guards(ctx: Ctx) -> None:
+    """C09.5: the documented pairing rules as guard sets of join_heads_to_tails_ / join_head_to_tail / maybe_buffer."""
+    p = ctx.p
+    g = p.func("simfile.notes.group:group_notes")
+    j = g.nested["join_heads_to_tails_"]
+    jh = g.nested["join_head_to_tail"]
+    mb = g.nested["maybe_buffer"]
+    fu = g.nested["flush_until_held_note"]
+    loops = [lp for lp in for_loops(j) if isinstance(lp.iter, ast.Name) and lp.iter.id == j.param_names()[0]]
+    main = one(loops, f"main loop of {j.fq}")
+    n = main.target.id
+    held = None
+    for c in calls(j):
+        from ..pat import match
+        m = match("$h.pop($n.column, None)", c)
+        if m is not None and ast.unparse(m["n"]) == n:
+            held = ast.unparse(m["h"])
+    require(held is not None, f"{j.fq}: 'head = <held>.pop(note.column, None)' not found")
+    # 1. a note closes/interrupts exactly when its column is held or it is a tail
+    jc = [c for c in calls(j) if callee(ctx, j, c) is jh and in_body(main, c)]
+    c = one(jc, "join_head_to_tail(head, note) call in the main loop")
+    fs = [(ast.unparse(a), pol) for a, pol in facts(ctx, j, c)]
+    want = [(f"{n}.column in {held} or {n}.note_type == NoteType.TAIL", True)]
+    alt = [(f"{n}.note_type == NoteType.TAIL or {n}.column in {held}", True)]
+    ctx.expect("R-TABLE", j, "a head is closed or interrupted exactly by a tail or by any note in its (held) column", fs in (want, alt), str(fs), f"pairing is attempted under {fs}", node=c)
+    a0, a1 = c.args
+    hb = [b for b in locals_of(j).b.get(ast.unparse(a0), []) if b.kind == "assign" and in_body(main, b.node)]
+    okh = len(hb) == 1 and ast.unparse(hb[0].value) == f"{held}.pop({n}.column, None)" and ast.unparse(a1) == n
+    ctx.expect("R-TABLE", j, "the head paired is the one open in the note's own column (and it is no longer held afterwards)", okh, "", "", node=c)
+    yf = [x for x in body_walk(j.node) if isinstance(x, ast.YieldFrom) and isinstance(x.value, ast.Call) and callee(ctx, j, x.value) is fu]
+    okf = len(yf) == 1 and [(ast.unparse(a), pol) for a, pol in facts(ctx, j, yf[0])] in (want, alt)
+    ctx.expect("R-ORDER", j, "after a pairing attempt everything up to the next still-held head is released", okf, "", "", node=main)
+    # 2. heads are registered as held
+    st = [x for x in body_walk(j.node) if isinstance(x, ast.Assign) and isinstance(x.targets[0], ast.Subscript) and ast.unparse(x.targets[0]) == f"{held}[{n}.column]"]
+    oks = False
+    if len(st) == 1:
+        fs2 = facts(ctx, j, st[0])
+        sets_ = []
+        for a, pol in fs2:
+            if pol and isinstance(a, ast.Compare) and isinstance(a.ops[0], ast.In) and ast.unparse(a.left) == f"{n}.note_type":
+                v = try_ev(ctx, j, a.comparators[0])
+                if v is not None:
+                    sets_.append({x.name for x in v if isinstance(x, EnumVal)})
+        oks = sets_ == [{"HOLD_HEAD", "ROLL_HEAD"}] and len(fs2) == 1 and ast.unparse(st[0].value) == n
+    ctx.expect("R-TABLE", j, "exactly hold and roll heads open a column", oks, "", "", node=main)
+    # the pairing attempt precedes the registration (a head interrupting a head closes the old one first)
+    cfg = ctx.cfg(j)
+    if len(st) == 1:
+        ctx.expect("R-ORDER", j, "an interrupting head closes the open one before it opens the column itself", cfg_node_of(cfg, j, st[0]) in cfg.reachable(cfg_node_of(cfg, j, c), removed=[cfg.node_for(main)]), "", "", node=main)
+    # 3. join_head_to_tail: orphan tail when no head; orphan head when the closing note is missing or not a tail
+    mh, mt = jh.param_names()
+    at = g.nested["attach_tail"]
+    ac = [x for x in calls(jh) if callee(ctx, jh, x) is at]
+    oka = False
+    if len(ac) == 1:
+        fs3 = sorted((ast.unparse(a), pol) for a, pol in facts(ctx, jh, ac[0]))
+        oka = fs3 == sorted([(mh, True), (mt, True), (f"{mt}.note_type != NoteType.TAIL", False)])
+        hv, tv = [inline(x, jh) for x in ac[0].args]
+        oka = oka and ast.unparse(hv) == mh and ast.unparse(tv) == mt
+    ctx.expect("R-TABLE", jh, "a head is joined exactly when there is an open head and the closing note is a tail", oka, "", "", node=jh.node)
+    # orphan-tail policy is consulted exactly when there is no open head; orphan-head policy when there is one and no tail closes it
+    from .records import _enum_tests
+    tests = _enum_tests(ctx, jh)
+    for subj, cond_desc, want_facts in (("orphaned_tail", "no open head", [(mh, False)]),
+                                         ("orphaned_head", "an open head and no closing tail", None)):
+        key = norm(ast.Name(id=subj, ctx=ast.Load()))
+        items = tests.get(key, [])
+        okp = bool(items)
+        for cmp_, _, _ in items:
+            fsx = [(ast.unparse(a), pol) for a, pol in facts(ctx, jh, cmp_) if not ast.unparse(a).startswith(subj)]
+            if want_facts is not None:
+                okp = okp and fsx == want_facts
+            else:
+                okp = okp and (mh, True) in fsx and any(a == f"not {mt} or {mt}.note_type != NoteType.TAIL" and pol for a, pol in fsx)
+        ctx.expect("R-TABLE", jh, f"the {subj} policy applies exactly when there is {cond_desc}", okp, "", "", node=jh.node)
+    # 4. maybe_buffer: buffered while any column is held, otherwise flushed and emitted
+    nb = mb.param_names()[0]
+    outs = {}
+    for x in body_walk(mb.node):
+        if isinstance(x, ast.Call) and ast.unparse(x).endswith(f".append({nb})"):
+            outs["append"] = [(ast.unparse(a), pol) for a, pol in facts(ctx, mb, x)]
+        if isinstance(x, ast.Yield) and ast.unparse(x.value) == nb:
+            outs["yield"] = [(ast.unparse(a), pol) for a, pol in facts(ctx, mb, x)]
+    ctx.expect("R-TABLE", mb, "a note is buffered while a hold is open and emitted directly otherwise", outs == {"append": [(held, True)], "yield": [(held, False)]}, str(outs), str(outs), node=mb.node)
